@@ -778,6 +778,140 @@ def backend_stream(ctx, plans):
         shutil.rmtree(tmp, ignore_errors=True)
 
 
+# --------------------------------------------------------------------------
+# reports followed by a hard death of the training process (real LocalBackend, default buffering)
+# --------------------------------------------------------------------------
+KILL_SCRIPT = r"""
+import json, os, signal, sys, time
+from syne_tune import Reporter
+
+args = dict(zip(sys.argv[1::2], sys.argv[2::2]))
+sync_dir = args["--sync_dir"]
+plan = json.load(open(args["--plan"]))
+
+def signal_file(name):
+    open(os.path.join(sync_dir, name), "w").close()
+
+report = Reporter()
+if plan.get("noise"):
+    print("starting to train")
+for i, kw in enumerate(plan["reports"]):
+    report(**kw)
+    signal_file("made_%d" % i)     # side channel: this Reporter call has returned
+mode = plan["mode"]
+if mode == "os_exit":
+    os._exit(1)
+elif mode == "sigkill":
+    os.kill(os.getpid(), signal.SIGKILL)
+else:
+    signal_file("ready")
+    t0 = time.time()
+    while time.time() - t0 < 120:  # killed by backend.stop_trial / pause_trial
+        time.sleep(0.05)
+"""
+
+KILL_MODES = ["sigkill", "os_exit", "stop_trial", "pause_trial"]
+
+
+def gen_kill_plans(rng):
+    plans = []
+    for mode in KILL_MODES:
+        k = rng.choice([2, 3, 5])
+        reps = [dict(epoch=i + 1, loss=rng.randint(1, 99) / 128, note="epoch {%d} done" % (i + 1)) for i in range(k)]
+        plans.append(dict(mode=mode, reports=reps, noise=rng.random() < 0.5))
+    return plans
+
+
+def backend_kill_stream(ctx, plans):
+    """Real LocalBackend trials (PYTHONUNBUFFERED removed from the child's environment) report a burst and then die
+    without a regular interpreter shutdown, or are killed by stop_trial / pause_trial. Independent checker: every
+    report whose Reporter call returned (side-channel marker files) is delivered / is in std.out, in order, once."""
+    import logging
+    import shutil
+    import time
+    from syne_tune.backend import LocalBackend
+    from syne_tune.backend.trial_status import Status
+    from syne_tune.report import retrieve
+    case = dict(kind="backend_kill", plans=plans)
+    tmp = tempfile.mkdtemp(prefix="c18_kill_")
+    logging.getLogger("syne_tune").setLevel(logging.WARNING)
+    saved = os.environ.pop("PYTHONUNBUFFERED", None)
+    trials, backend = [], None
+    try:
+        script = os.path.join(tmp, "train_then_die.py")
+        open(script, "w").write(KILL_SCRIPT)
+        sink = io.StringIO()
+        with contextlib.redirect_stdout(sink), contextlib.redirect_stderr(sink):
+            backend = LocalBackend(entry_point=script, rotate_gpus=False)
+            backend.set_path(results_root=os.path.join(tmp, "results"))
+        for t, plan in enumerate(plans):
+            sync = os.path.join(tmp, "sync%d" % t)
+            os.makedirs(sync)
+            planf = os.path.join(tmp, "plan%d.json" % t)
+            json.dump(plan, open(planf, "w"))
+            with contextlib.redirect_stdout(sink), contextlib.redirect_stderr(sink):
+                trial = backend.start_trial(config={"sync_dir": sync, "plan": planf})
+            trials.append((trial.trial_id, sync, plan))
+        for tid, sync, plan in trials:
+            delivered = []
+            mode = plan["mode"]
+            if mode in ("sigkill", "os_exit"):
+                status = Status.in_progress
+                t0 = time.time()
+                while time.time() - t0 < 90:
+                    st, res = backend.fetch_status_results([tid])
+                    delivered += [m for _, m in res]
+                    status = st[tid][1]
+                    if status != Status.in_progress:
+                        break
+                    time.sleep(0.05)
+                if status == Status.in_progress:
+                    ctx.notes.append("kill stream: trial did not end (environment); skipped")
+                    continue
+                _, res = backend.fetch_status_results([tid])
+                delivered += [m for _, m in res]
+                where = "after the process died (%s)" % mode
+            else:
+                if not _wait(os.path.join(sync, "ready"), timeout=90):
+                    ctx.notes.append("kill stream: trial script did not reach its marker (environment); skipped")
+                    continue
+                _, res = backend.fetch_status_results([tid])      # the script is alive and idle: everything reported is visible
+                delivered += [m for _, m in res]
+                where = "while the script was still running, all Reporter calls having returned"
+            made = sum(1 for i in range(len(plan["reports"])) if os.path.exists(os.path.join(sync, "made_%d" % i)))
+            sent = plan["reports"][:made]
+            got = [{k: v for k, v in m.items() if k not in RESERVED} for m in delivered]
+            ctx.count(("backend_kill", plan), nontrivial=True)
+            ctx.traces_validated += 1
+            ctx.h("backend_kill", "%s_k%d" % (mode, len(plan["reports"])))
+            sig = dict(component="Reporter", defect="report_not_on_stream_when_call_returns", death=mode)
+            if got != sent:
+                ctx.violation("property", "LocalBackend trial (default stdout buffering): %d Reporter calls returned (%r) but "
+                              "fetch_status_results delivered %r %s" % (made, sent, got, where), case=case, signature=sig)
+            if mode in ("stop_trial", "pause_trial"):
+                with contextlib.redirect_stdout(sink), contextlib.redirect_stderr(sink):
+                    if mode == "stop_trial":
+                        backend.stop_trial(tid)
+                    else:
+                        backend.pause_trial(tid)
+                proc = backend.trial_subprocess.get(tid)
+                if proc is not None:
+                    proc.wait(timeout=60)
+                final = [{k: v for k, v in m.items() if k not in RESERVED} for m in retrieve(backend.stdout(tid))]
+                if final != sent:
+                    ctx.violation("property", "LocalBackend trial killed by %s: %d Reporter calls had returned (%r) but std.out "
+                                  "parses to %r" % (mode, made, sent, final), case=case, signature=sig)
+        ctx.sample(dict(kind="local_backend_kill_stream", plans=plans))
+    finally:
+        if saved is not None:
+            os.environ["PYTHONUNBUFFERED"] = saved
+        for tid, _, _ in trials:
+            proc = backend.trial_subprocess.get(tid)
+            if proc is not None and proc.poll() is None:
+                proc.kill()
+        shutil.rmtree(tmp, ignore_errors=True)
+
+
 def prefix_cases(ctx, rng, lines_cases, lines_meta):
     """retrieve() on every prefix of a stream (a reader that sees the file while it grows): either exactly the
     complete reports so far, or an exception caused by the cut line — never a wrong or missing dictionary"""
@@ -840,6 +974,9 @@ def run(ctx, replay=None):
         elif replay.get("kind") == "backend":
             backend_stream(ctx, replay["plans"])
             return
+        elif replay.get("kind") == "backend_kill":
+            backend_kill_stream(ctx, replay["plans"])
+            return
     else:
         for p in sorted(glob.glob(os.path.join(VERIF, "corpus", "C18", "*.json"))):
             c = json.load(open(p))
@@ -867,6 +1004,7 @@ def run(ctx, replay=None):
     if not replay:
         prefix_cases(ctx, rng, lines_cases, lines_meta)
         backend_stream(ctx, gen_backend_plans(rng))
+        backend_kill_stream(ctx, gen_kill_plans(rng))
     for i in ctx.coq_bad_cases("lines", IMPORTS, PRELUDE, "chk_lines", lines_cases, shard=150):
         ctx.violation("correspondence", "model readlines/retrieve_model differs from readlines()+re.findall of the real retrieve",
                       case=lines_meta[i], failing_input=False, broken="correspondence chk_lines (model/Report.v retrieve_model)")
